@@ -28,9 +28,7 @@ def run_one(entry, target=None):
     try:
         mutant.apply_patch(d, os.path.join(VERIF, 'mutants', entry['patch']))
         for p in entry['props']:
-            if target:
-                os.environ['VERIF_TARGET'] = target
-            rc, keys, out = mutant.run_check(d, p)
+            rc, keys, out = mutant.run_check(d, p, target=target)
             hit = [k for k in keys if entry['expect'] in k]
             res['results'][p] = {'rc': rc, 'keys': keys, 'hit': bool(hit)}
             if not hit:
@@ -65,8 +63,8 @@ def main():
         sel.append(e)
     bad = 0
     out = []
-    for e in sel:
-        r = run_one(e)
+    for r in mutant.parallel_map(run_one, sel, mutant.jobs_arg(args)):
+        e = next(x for x in sel if x['patch'] == r['patch'])
         out.append(r)
         status = 'DETECTED' if r['detected'] else 'MISSED'
         print('%s %s %s (%.0fs)' % (status, e['patch'], {p: v['keys'][:2] for p, v in r['results'].items()}, r['wall_s']))
